@@ -34,6 +34,9 @@ Definition table_oracles (T : tables) : oracles :=
             (lookup (t_ptime T)) (fun t => or_missing (lookup_time (t_ftime T) t))
             (lookup (t_pfloat T)) (fun b => or_missing (lookup_N (t_ffloat T) b)).
 
+(* the bound the harness gives to literal.NewBoundedBuilder *)
+Definition bounded_max : nat := 2.
+
 Inductive value := VNode (n : node) | VPred (p : pred) | VLit (l : literal) | VObj (o : object) | VTriple (t : triple).
 
 Definition value_eqb (a b : value) : bool :=
@@ -91,7 +94,7 @@ Definition dom_value (v : value) : bool :=
 
 Inductive case :=
 | CParse (inp : str) (on : outcome node) (op : outcome pred) (ol : outcome literal) (oo : outcome object)
-         (ot : outcome triple)
+         (ot : outcome triple) (ob : outcome literal)   (* ob: NewBoundedBuilder(bounded_max).Parse *)
 | CValue (v : value) (text : str) (parsed : outcome value) (retext : option str)
 | CRead (text : str) (cnt : Z) (st : rstatus) (lines : list str)
 | CGraph (ts : list triple) (stored : list str) (wcnt : Z) (wtext : str) (rcnt : Z) (rst : rstatus) (rlines : list str)
@@ -117,8 +120,9 @@ Definition read_agrees (text : str) (cnt : Z) (st : rstatus) (lines : list str) 
 
 Definition agrees (c : case) : bool :=
   match c with
-  | CParse inp on op ol oo ot =>
-      outcome_eqb node_eqb (parse_node inp) on
+  | CParse inp on op ol oo ot ob =>
+      outcome_eqb literal_eqb (parse_literal_bounded O bounded_max inp) ob
+      && outcome_eqb node_eqb (parse_node inp) on
       && outcome_eqb pred_eqb (parse_pred O inp) op
       && outcome_eqb literal_eqb (parse_literal O inp) ol
       && outcome_eqb object_eqb (parse_object O inp) oo
@@ -162,8 +166,9 @@ Fixpoint illformed_from (i : N) (l : list case) : list N :=
   | [] => []
   | c :: r =>
       let ok := match c with
-                | CParse _ on op ol oo ot =>
+                | CParse _ on op ol oo ot ob =>
                     owf wf_node on && owf wf_pred op && owf wf_literal ol && owf wf_object oo && owf wf_triple ot
+                    && owf wf_literal ob
                 | CValue _ _ parsed _ => owf wf_value parsed
                 | _ => true
                 end in
